@@ -342,6 +342,37 @@ pub fn tier2(quick: bool) -> Vec<Program> {
             }
         }
     }
+    // an FD constraint next to a TREE disequality (`!=`) over the same variables, in every
+    // statement order, with and without a later binding: posting or re-running the one must
+    // leave the other in the store
+    {
+        let dm = G::InFd(vec![x.clone(), y.clone(), z.clone()], Dom::Range(0, 2));
+        let cons: Vec<G> = vec![
+            G::Fd(FdKind::Lt, vec![x.clone(), y.clone()]),
+            G::Fd(FdKind::Plus, vec![x.clone(), y.clone(), z.clone()]),
+            G::Fd(FdKind::Diseq, vec![x.clone(), z.clone()]),
+            G::DistinctFd(T::list(vec![x.clone(), y.clone(), z.clone()])),
+        ];
+        let neqs: Vec<G> = vec![
+            G::Neq(z.clone(), T::I(1)),
+            G::Neq(x.clone(), y.clone()),
+            G::Neq(T::list(vec![x.clone(), z.clone()]), T::list(vec![T::I(0), T::I(2)])),
+            G::Neq(T::list(vec![y.clone(), z.clone()]), T::list(vec![z.clone(), T::I(2)])),
+        ];
+        for (ci, c) in cons.iter().enumerate() {
+            for (ni, n) in neqs.iter().enumerate() {
+                if quick && (ci + ni) % 2 == 1 {
+                    continue;
+                }
+                for perm in permutations(&[dm.clone(), c.clone(), n.clone()]) {
+                    out.push(Program { nq: 3, body: perm.clone() });
+                    let mut with_eq = perm.clone();
+                    with_eq.push(G::Eq(y.clone(), T::I(1)));
+                    out.push(Program { nq: 3, body: with_eq });
+                }
+            }
+        }
+    }
     // every operand ground before the constraint is posted, nothing left to label
     for (a, b) in [(1i64, 1i64), (1, 2), (2, 1)] {
         let grounded: Vec<G> = vec![
